@@ -399,4 +399,9 @@ def main(argv=None):
     a = ap.parse_args(argv)
     if a.replay:
         return replay(a.replay)
+    # second-solver differential (qv/decide.py:_second_solver): small allowance per obligation in the quick tier,
+    # larger queries and more time in the thorough tier
+    os.environ.setdefault("QV_SOLVER2", "cvc5")
+    os.environ.setdefault("QV_SOLVER2_ROWS", "600" if a.tier == "quick" else "6000")
+    os.environ.setdefault("QV_SOLVER2_BUDGET_S", "4" if a.tier == "quick" else "40")
     return run_property(a.prop.upper(), a.tier, a.seed, a.only, a.jobs, a.verbose, a.list)
